@@ -269,6 +269,38 @@ def shard(conn, skind, dt, maxk, fractional, T, F=2, only_assign=None, only_clea
     return tally
 
 
+def zero_maxdelay_shard(conn, skind, T):
+    """a connection constructed with a maximum delay of exactly 0.0 is documented to behave as undelayed: same outputs and views
+    as the connection constructed without a delay, for every input history"""
+    tally = Tally()
+    W = weight_for(conn, 2)
+    isconv = conn in CONV_GEOM
+    insize = CONV_GEOM[conn][0] * CONV_GEOM[conn][1] if isconv else 2
+    hs = histories(T, insize)
+    B = len(hs)
+    case = {"conn": conn, "synapse": skind, "max_delay": 0.0, "T": T, "batch=histories": B}
+    tally.add("evaluations")
+    try:
+        cz = build(conn, skind, 1.0, 0.0, B, W, torch.zeros_like(W))
+        cu = build(conn, skind, 1.0, None, B, W, torch.zeros_like(W))
+        for t in range(T):
+            x = torch.tensor([h[t] for h in hs], dtype=torch.bool)
+            x = x.reshape(B, 1, CONV_GEOM[conn][0], CONV_GEOM[conn][1]) if isconv else x
+            inj = (torch.full(x.shape, 0.25 * (t + 1)),) if skind == "deltaplus" else ()
+            oz, ou = cz(x.clone(), *inj), cu(x.clone(), *inj)
+            if oz.shape != ou.shape or not torch.allclose(oz, ou, rtol=1e-5, atol=1e-5):
+                tally.violation(f"zero-maxdelay!=undelayed:{conn}:{skind}", {**case, "step": t}, f"step {t}: outputs differ from the undelayed connection")
+                break
+            if not torch.allclose(cz.syncurrent.reshape(B, -1), cu.syncurrent.reshape(B, -1), rtol=1e-5, atol=1e-5):
+                tally.violation(f"zero-maxdelay:syncurrent:{conn}:{skind}", {**case, "step": t}, "syncurrent differs from the undelayed connection")
+                break
+    except Exception as ex:
+        tally.violation(f"exception:zero-maxdelay:{conn}:{skind}:{type(ex).__name__}", case, f"{type(ex).__name__}: {ex}", None, repr(ex))
+    tally.mark("nontrivial", ("zero-maxdelay", conn, skind))
+    tally.add("histories", B)
+    return tally
+
+
 def run(rep):
     quick = rep.tier == "quick"
     T = 3 if quick else 5
@@ -315,6 +347,9 @@ def run(rep):
     for skind in ("delta", "exp"):
         for f64 in (False, True):
             jobs.append((shard, ("direct", skind, 1.7, 6, False, 7, 2, None, (), 0.0, (0, 3, 6), None, "previous", None, f64)))
+    for conn in ("dense", "direct", "lateral", "conv", "conv22"):
+        for skind in ("delta", "deltaplus", "exp", "dexp"):
+            jobs.append((zero_maxdelay_shard, (conn, skind, 3 if conn != "conv22" else 2)))
     # a 2x2 kernel: row/column order of the per-kernel-element delays matters (2x3 input, 64 input letters -> shorter histories)
     for skind in ("delta", "exp") if quick else ("delta", "deltaplus", "exp", "dexp"):
         jobs.append((shard, ("conv22", skind, 1.0, 1 if quick else 2, False, 2, 1)))
